@@ -410,7 +410,7 @@ pub fn f1(tier: Tier) -> F1 {
     let d1_small = exprs_depth1(&al_small);
     let ops2: Vec<BinOp> = all_binops();
     let d2 = exprs_depth2(&al_small, &d1_small, &side, &ops2, &UNOPS);
-    let sinks2: Vec<Sink> = if quick { vec![Sink::R, Sink::IfElse] } else { vec![Sink::R, Sink::IfElse, Sink::S16] };
+    let sinks2: Vec<Sink> = if quick { vec![Sink::R, Sink::IfElse] } else { vec![Sink::R, Sink::IfElse, Sink::X] };
     let cfgs2: Vec<(Ty, Ty)> = if quick { vec![(Ty::U8, Ty::U8)] } else { cfgs.clone() };
     for (ta, tr) in &cfgs2 {
         for sink in &sinks2 {
